@@ -411,6 +411,8 @@ class Exec:
         cn = V.resolve_class(name, getattr(self.unit, 'class_aliases', None))
         if cn is not None and cn in V.CLASS_TREE and name not in ('int', 'str', 'float', 'bool', 'list', 'tuple', 'dict', 'type', 'bytes', 'object'):
             return ExcClass(cn)
+        if name in ('int', 'str', 'float', 'bool', 'list', 'tuple', 'dict', 'bytes', 'object'):
+            return TypeName(name)
         raise Unsupported(f'name `{name}`')
 
     def ev_Name(self, e, st):
@@ -459,6 +461,8 @@ class Exec:
                     return [('ok', st, eargs(base))]
                 if attr == '__cause__':
                     return [('ok', st, ecause(base))]
+                if attr == '__traceback__':
+                    return [('ok', st, etb(base))]
                 raise Unsupported(f'attribute `.{attr}` on opaque value `{key}` (line {getattr(node, "lineno", "?")})')
             return model.getattr(self, st, base, attr, node)
         if is_z3(base) and base.sort() == SeqV:
@@ -667,7 +671,9 @@ class Exec:
                 return z3.BoolVal(len(v.items) > 0)
             raise Unsupported('truth of dict with opaque pack')
         if isinstance(v, KwPack):
-            raise Unsupported('truth of opaque kwargs')
+            if v.known:
+                return z3.BoolVal(True)
+            return v.val != NOKW
         if is_z3(v):
             s = v.sort()
             if s == z3.BoolSort():
@@ -1610,6 +1616,10 @@ def _b_isinstance(ex, e, st):
                     name = c.name
                 elif isinstance(c, TypeName):
                     name = c.name
+                elif is_z3(c) and c.sort() == Val:
+                    # class (or tuple of classes) only known at run time: uninterpreted, but a pure function of (value, classes)
+                    conds.append(dyn_isinst(box(ex, v), c))
+                    continue
                 else:
                     raise Unsupported(f'isinstance against {c!r}')
                 conds.append(ex.isinstance_of(s2, v, name))
@@ -1635,6 +1645,10 @@ def _isinstance_of(self, st, v, name):
 
 
 Exec.isinstance_of = _isinstance_of
+
+
+dyn_isinst = z3.Function('isinstance_dyn', Val, Val, z3.BoolSort())
+etb = z3.Function('e_traceback', Val, Val)
 
 
 class TypeName:
